@@ -170,3 +170,11 @@ Proof.
   - right. apply in_or_app. left. apply in_map. exact Ha.
   - destruct (IH Ha Hb Hne); [left|right]; apply in_or_app; right; assumption.
 Qed.
+
+(* the hypotheses are satisfiable on a non-trivial input: the 5-node witness of the visit-order dependence of the
+   as-found search; 1 <- 4 <-> 3 <-> 0 is inducing relative to L = {4} (4 a non-collider in L, 3 a collider and an
+   ancestor of 0 through 2), and there is no inducing path once 4 is observed *)
+Example inducing_example :
+  let g := MkG [0; 1; 2; 3; 4] [(2, 0); (4, 1); (3, 2)] [(0, 3); (2, 4); (3, 4)] [] [] in
+  inducing_model g 1 0 [4] [] = (true, [1; 4; 3; 0]) /\ inducing_model g 1 0 [] [] = (false, []).
+Proof. vm_compute. split; reflexivity. Qed.
